@@ -60,7 +60,7 @@ TESTED_NOT_PROVED = ["prune_automorphisms=True: WHICH mapping represents a host 
                      "derived views of a matcher object (mappings, num_mappings, mapping_direction, iteration, repr, repeated and re-ordered "
                      "get_mappings reads, reads after the caller edited earlier results): checked by the adapter against the stored result "
                      "after every step of every history"]
-LEVEL_TEXT = ("Machine-checked proof (Coq, 42 theorems in coq/props/C12.v, all closed under the global context) over an executable model "
+LEVEL_TEXT = ("Machine-checked proof (Coq, 45 theorems in coq/props/C12.v, all closed under the global context) over an executable model "
               "of MCSMatcher._search_subgraphs / _prune_graph / _prepare_orientation / find_common_subgraph / get_mappings (both copies of "
               "the matcher), for all pairs of graphs with distinct node ids: every returned mapping (both modes, all three directions, after "
               "orientation swap and wildcard pruning) is a function, injective, label-preserving, and preserves presence AND order of every "
@@ -75,8 +75,8 @@ LEVEL_TEXT = ("Machine-checked proof (Coq, 42 theorems in coq/props/C12.v, all c
               "lib/Mono.v (induced) by C12_level_exact; the dependence on networkx VF2 is the explicit premise of C12_vf2_premise (same "
               "result SET per k-subset). Round 5: the matcher OBJECT is a state machine in the model (model/C12_State.v: constructor normalisation, "
               "attribute selection on the raw dictionaries incl. values float() rejects, cache with the unknown-direction state, ITS facade): "
-              "C12_history_independent (a search never looks at the cache), C12_history_valid (the property after ANY history of calls on one "
-              "object), C12_reads_inverse, C12_state_unknown, C12_facade_sides, C12_history_component_valid, C12_ctor_normalised, C12_raw_matchers, "
+              "C12_history_independent (a search never looks at the cache), C12_history_valid / C12_history_valid_raw (the property after ANY "
+              "history of calls on one object, the latter stated on the caller's raw graphs with the object's options incl. wildcard pruning), C12_reads_inverse, C12_state_unknown, C12_facade_sides, C12_history_component_valid, C12_ctor_normalised, C12_raw_matchers, "
               "C12_raw_meaning; C12_search_trace (per GraphMatcher object: k-subset and number of isomorphisms, compared with the instrumented "
               "implementation on every plain search). Model and code are compared on every run (ordered lists, sizes, subset counts, every read of every history).")
 LEVEL_NOTE = ("Trusted: Coq kernel + vm_compute; the hand-written model and encoders; networkx VF2 returns, for every k-subset, the same set of "
@@ -268,11 +268,12 @@ def _vf2_first_per_host_set(case):
 def _obs(M, cnt, variant, case=None):
     if case is not None and case.get("mode") == "mcs_mol":
         return [M._last_pattern_is_G1, M.last_size, cnt, _mol_pairs(case, M)]
-    if case is not None and case.get("prune_auto") and not case.get("mode") and variant == "matcher" and case.get("in_history"):
+    if (case is not None and case.get("prune_auto") and not case.get("mode") and variant == "matcher" and case.get("in_history")
+            and not case.get("auto_tracked")):
         # which representative survives is VF2's choice; compared: orientation, size, subsets tried and the SET of host node sets
         # (one survivor per host set: a duplicate host set would show up twice here and break the comparison with the model)
         return [M._last_pattern_is_G1, M.last_size, cnt, S([sorted(int(v) for v in m.values()) for m in M.get_mappings()])]
-    plain = case is None or (not case.get("mode") and not case.get("prune_auto"))
+    plain = case is None or (not case.get("mode") and (not case.get("prune_auto") or case.get("auto_tracked")))
     tr = [list(_Count.trace)] if plain else []     # the k-subsets tried, in order, with the number of isomorphisms VF2 yielded
     if variant == "matcher":
         return [M._last_pattern_is_G1, M.last_size, cnt, _dicts(M.get_mappings()), _dicts(M.get_mappings("G1_to_G2")),
@@ -364,6 +365,11 @@ def _sub(case, st):
         if k in cfg:
             d[k] = cfg[k]
     d["in_history"] = True
+    # round 5: a prune_automorphisms search on FRESH graph objects is tracked by the state machine (MFindAuto: VF2's first mapping
+    # per host node set is computed from networkx alone on graphs built like the adapter's; for objects edited in place the
+    # adjacency order, and with it VF2's enumeration order, is not reproducible from the case -- such steps stay external)
+    d["auto_tracked"] = bool(d["prune_auto"] and case["variant"] == "matcher" and st.get("call", "fcs") == "fcs"
+                             and st.get("src_g1") is None and st.get("src_g2") is None)
     if st.get("call") in ("mcs_mol", "component"):
         d["mode"] = st["call"]
     if st.get("call") == "rc_side" and st.get("component"):
@@ -740,8 +746,14 @@ def _coq_history(case):
                            % (ci, e, e, e, e, e, e, cbool(st["mcs"]), cbool(st.get("component", True))))
                 opaque.discard(ci)
                 continue
+            if sub.get("auto_tracked") and _in_domain(dict(sub, prune_auto=False)):
+                ch = clist([clist([cpair(cN(p), cN(h)) for p, h in m]) for m in _vf2_first_per_host_set(sub)])
+                ops.append("HCall %d (MFindAuto %s %s %s %s)" % (ci, _coq_rgraph(_nx_prune_order(st["g1"], sub), T, needed),
+                                                                _coq_rgraph(_nx_prune_order(st["g2"], sub), T, needed), cbool(st["mcs"]), ch))
+                opaque.discard(ci)
+                continue
             if cfg.get("prune_auto") or sub.get("mode") == "mcs_mol":
-                t = coq_case(sub)
+                t = coq_case(dict(sub, auto_tracked=False))
                 if t is None:
                     return None
                 ops.append("HExternal %d (%s)" % (ci, t))
@@ -995,7 +1007,7 @@ def oracle(case):
 
 def _msizes(case, obs):
     """Sizes of the returned mappings, from the observable (prune_automorphisms: sizes of the host node sets)."""
-    if case.get("prune_auto") and not case.get("mode") and case["variant"] == "matcher" and case.get("in_history"):
+    if case.get("prune_auto") and not case.get("mode") and case["variant"] == "matcher" and case.get("in_history") and not case.get("auto_tracked"):
         return [len(h) for h in obs[3]["__set__"]]
     if case.get("mode") == "mcs_mol":
         return [sum(len(p[0]["__set__"]) for p in obs[3]["__set__"])]
@@ -1896,6 +1908,10 @@ def _state_histories_mtg(rng, n):
             prev = (a, b)
         if all(s_.get("call") in _NON_SEARCH for s_ in steps):
             a, b = _small_pair(rng)
+            if cfg["edge_attrs"] == ["standard_order"]:     # MTG: the compared bond attribute is missing on at most one graph (ASSUMPTIONS)
+                for g in (a, b):
+                    for e in g["edges"]:
+                        e[2].setdefault("standard_order", rng.choice([0, 1]))
             steps.append(dict(g1=a, g2=b, mcs=True, call="fcs", cfg=0, reads=[]))
         out.append(_hist_case("history/state-mtg", "mtg", [cfg], steps))
     return out
